@@ -300,7 +300,7 @@ const LITS: [&str; 44] = [
 
 const FRAGS: [&str; 12] = ["\u{a0}", "\u{2003}", "\u{feff}", "\u{201c}q\u{201d}", "\\", "\\(", "\\)", "\u{1F600}", "\u{0}", "\r", "\t", "\u{e9}"];
 
-fn soup_token(ch: &mut Choices) -> String {
+pub fn soup_token(ch: &mut Choices) -> String {
     match ch.weighted(&[10, 6, 1]) {
         0 => {
             let n = WORDS.with(|w| w.len());
